@@ -37,15 +37,16 @@ Theorem C01_scope_string_injective : forall l1 l2, scope_ok l1 -> scope_ok l2 ->
   join_slash l1 = join_slash l2 -> l1 = l2.
 Proof. exact join_slash_inj. Qed.
 
-(* names supplied positionally are removed from the bindings before the call *)
-Theorem C01_prep_bindings : forall cfg scope c args p, cfg_wf cfg -> no_req args ->
-  sget p (prep_bindings cfg scope c args) =
-  if str_in p (supplied_positional_names (c_sig c) args) then None else overlay_spec cfg scope (c_sel c) p.
+(* names the caller supplies (positionally or by keyword) are removed from the bindings before the call *)
+Theorem C01_prep_bindings : forall cfg scope c args kwargs p, cfg_wf cfg -> no_req args -> no_req_kw kwargs ->
+  sget p (prep_bindings cfg scope c args kwargs) =
+  if str_in p (supplied_positional_names (c_sig c) args) || smem p kwargs then None
+  else overlay_spec cfg scope (c_sel c) p.
 Proof. exact prep_bindings_spec. Qed.
 
 (* Gin never creates a "multiple values for argument" error *)
 Theorem C01_no_gin_multiple_values : forall c cfg scope args kwargs k, no_req args ->
-  smem k (supdate (prep_bindings cfg scope c args) kwargs) = true ->
+  smem k (supdate (prep_bindings cfg scope c args kwargs) kwargs) = true ->
   str_in k (supplied_positional_names (c_sig c) args) = true -> smem k kwargs = true.
 Proof. exact no_gin_multiple_values. Qed.
 
@@ -54,7 +55,7 @@ Proof. exact no_gin_multiple_values. Qed.
 Theorem C01_injection : forall c cfg scope args kwargs nk env p,
   let sg := c_sig c in
   sig_wf sg -> cfg_wf cfg -> keys_nodup kwargs -> no_req args -> no_req_kw kwargs -> signature_required c = [] ->
-  map fst nk = map fst (prep_bindings cfg scope c args) ->
+  map fst nk = map fst (prep_bindings cfg scope c args kwargs) ->
   merge_call c args kwargs nk = Ok (args, supdate nk kwargs) /\
   (py_bind sg args (supdate nk kwargs) = Some env -> named sg p ->
      (forall i v, nth_error (s_args sg) i = Some p -> nth_error args i = Some v -> sget p env = Some v) /\
